@@ -30,6 +30,13 @@ def refinement(*conditions: Union[SymbolicExpression[T], bool, Predicate]) -> Sy
     new_conditions_root = ExceptIf(SymbolicExpression._current_parent_(), new_branch)
     new_branch._node_.weight = RDREdge.Refinement
     new_conditions_root._parent_ = prev_parent
+    # like alternative_or_next: when the refined node is itself an operand of a rule operator (a refinement or an
+    # alternative branch), that operator has to evaluate the new except-if instead of the bare node.
+    if isinstance(prev_parent, BinaryOperator):
+        if prev_parent.left is current_node:
+            prev_parent.left = new_conditions_root
+        else:
+            prev_parent.right = new_conditions_root
     return new_conditions_root.right
 
 
